@@ -16,7 +16,7 @@ from harness.exact import OracleError
 from harness.games import P1, P2, PR, copy_game
 from harness.load import repo
 from harness.runner import Phase, Verdict
-from harness.sut import classify_exception
+from harness.sut import SkipSolve, classify_exception, wants_file_route
 
 ID = "C01"
 LEVEL = "exploration"
@@ -469,6 +469,33 @@ def check_small(case, v):
             if x.outcome.kind == "nosol" and y.outcome.kind == "ok" and y.prob[0] != 0:
                 v.fail("prune-changes-probabilities", f"pruned solve says no solution, unpruned reports "
                                                       f"p[0]={y.prob[0]!r}")
+    if a.outcome.kind == "ok" and b.outcome.kind == "ok" and not v.fails and not v.inconclusive \
+            and wants_file_route(dict(game, salt="batch")):
+        # the batch driver solves the game in both modes in one call: its two entries must carry the same
+        # probabilities as each other and as the two separate solves
+        from harness.sut import entry_solved
+        r = repo()
+        helper = Solved.__new__(Solved)
+        helper.facts, helper.iterated_T, helper.iterated_not_stopping = facts, None, False
+        v.cls("batch_driver_both_modes")
+        try:
+            with sweep_budget(r.tad, facts.budget, facts.n, extra_modules=(r.conditionalrewards,),
+                              on_reward_phase=helper._reward_phase_budget):
+                res = r.conditionalrewards.run_games({"g": copy_game(game)})
+        except (BudgetExceeded, SkipSolve):
+            return v
+        except Exception as e:
+            v.fail("batch-driver-raises", f"run_games: {type(e).__name__}: {str(e)[:160]}", sig=type(e).__name__)
+            return v
+        e1, e2 = res.get("g"), res.get("g_no_prune")
+        if entry_solved(e1) and entry_solved(e2):
+            if e1["probabilities"] != e2["probabilities"]:
+                diff = [(s, x, y) for s, (x, y) in enumerate(zip(e1["probabilities"], e2["probabilities"])) if x != y][:3]
+                v.fail("prune-changes-probabilities", f"run_games: entries g and g_no_prune report different "
+                                                      f"probabilities: {diff}", sig="batch")
+            elif e1["probabilities"] != (a.prob if a.prune else b.prob):
+                v.fail("prune-changes-probabilities", f"run_games: entry g reports {e1['probabilities']}, the separate "
+                                                      f"solve {(a.prob if a.prune else b.prob)}", sig="batch-vs-solo")
     return v
 
 
